@@ -1,5 +1,6 @@
 import BU.Properties.C08_GenTree
 import BU.Properties.C08_GenTweak
+import BU.Properties.C11_GenInit
 /-!
 # C08, continuation — `PublicKey.to_taproot_hex` as *generated* code (tier T)
 
@@ -45,10 +46,28 @@ theorem gen_address_commits (sha256 : Bytes → Bytes) (T : Tables) (x y : Nat) 
   have hy' : y < 2 ^ 256 := Nat.lt_trans hy (by decide)
   have hlen : (beBytes 32 x ++ beBytes 32 y).length = 64 := by simp
   have hd : (beBytes 32 x ++ beBytes 32 y).drop 32 = beBytes 32 y := by
-    rw [List.drop_append, GenTweak.be32_length, List.drop_of_length_le (by rw [GenTweak.be32_length]; omega)]; simp
+    rw [List.drop_append, GenTweak.be32_length, List.drop_of_length_le (by simp [GenTweak.be32_length])]
+    try simp
   have hy0 : ofBE ((beBytes 32 x ++ beBytes 32 y).drop 32) < p := by
     rw [hd, SchnorrLemmas.ofBE_beBytes32 y hy']; exact hy
   rw [gen_to_taproot_hex sha256 T _ s hs hlen hy0] at hq
   exact C08.address_commits sha256 T _ x y hx hy' rfl hl s q odd root hr ht hq
+
+end C08GenAddr
+
+namespace C08GenAddr
+open Py Secp Model Spec GenTapSign
+
+/-- `PublicKey.get_taproot_address(scripts)`: the P2TR object holds witness version 1, the x coordinate the translated `to_taproot_hex`
+returns, and its parity flag (`P2trAddress.__init__` is checked to store `is_odd` and forward the rest with the class constant) -/
+theorem gen_get_taproot_address (hrp : List Char) (sha256 : Bytes → Bytes) (T : Tables) (pub : Bytes) (s : Model.Scripts)
+    (hs : SmallScripts T s) (hlen : pub.length = 64) (hy0 : ofBE (pub.drop 32) < p) (q : Bytes) (odd : Bool)
+    (hq : toTaproot sha256 T pub s = .ok (q, odd)) (hne : q ≠ []) :
+    Gen.pubkey_get_taproot_address hrp sha256 T.opCodes pub (toPyScripts s) = .ok (((1 : Int), q), odd) := by
+  unfold Gen.pubkey_get_taproot_address
+  rw [gen_to_taproot_hex sha256 T pub s hs hlen hy0, hq, ok_bind]
+  simp only []
+  rw [C11GenInit.gen_segwit_init_program hrp none q hne "p2trv1" 1 (by decide), ok_bind]
+  rfl
 
 end C08GenAddr
